@@ -282,4 +282,968 @@ theorem cmpStr_lt_iff_strLt : ∀ (a b : Str), cmpStr a b = .lt ↔ strLt a b = 
           subst this
           simp [Char.lt_irrefl]
 
+/-! ## Part B: release comparison — stripping trailing zeros vs padding with zeros -/
+
+theorem stripTrailingZeros_nil : stripTrailingZeros [] = [] := rfl
+
+theorem stripTrailingZeros_cons (x : Nat) (xs : List Nat) :
+    stripTrailingZeros (x :: xs)
+      = if x = 0 ∧ stripTrailingZeros xs = [] then [] else x :: stripTrailingZeros xs := by
+  unfold stripTrailingZeros
+  rw [List.reverse_cons, List.dropWhile_append]
+  by_cases h : (List.dropWhile (· == 0) xs.reverse) = []
+  · rw [h]
+    by_cases hx : x = 0
+    · simp [hx]
+    · simp [hx]
+  · have h' : (List.dropWhile (· == 0) xs.reverse).isEmpty = false := by
+      cases hh : List.dropWhile (· == 0) xs.reverse with
+      | nil => exact absurd hh h
+      | cons _ _ => rfl
+    rw [h']
+    simp [h]
+
+/-- compare after padding the shorter list with zeros -/
+def cmpPad : List Nat → List Nat → Ordering
+  | [], [] => .eq
+  | [], y :: ys => (cmpNat 0 y).then (cmpPad [] ys)
+  | x :: xs, [] => (cmpNat x 0).then (cmpPad xs [])
+  | x :: xs, y :: ys => (cmpNat x y).then (cmpPad xs ys)
+
+theorem cmpPad_nil_left (s : List Nat) :
+    cmpPad [] s = if stripTrailingZeros s = [] then .eq else .lt := by
+  induction s with
+  | nil => simp [cmpPad, stripTrailingZeros_nil]
+  | cons y ys ih =>
+    rw [cmpPad, ih, stripTrailingZeros_cons]
+    by_cases hy : y = 0
+    · subst hy
+      by_cases h : stripTrailingZeros ys = [] <;> simp [h, cmpNat]
+    · have : cmpNat 0 y = .lt := (cmpNat_lt 0 y).mpr (by omega)
+      simp [hy, this]
+
+theorem cmpPad_nil_right (r : List Nat) :
+    cmpPad r [] = if stripTrailingZeros r = [] then .eq else .gt := by
+  induction r with
+  | nil => simp [cmpPad, stripTrailingZeros_nil]
+  | cons x xs ih =>
+    rw [cmpPad, ih, stripTrailingZeros_cons]
+    by_cases hx : x = 0
+    · subst hx
+      by_cases h : stripTrailingZeros xs = [] <;> simp [h, cmpNat]
+    · have : cmpNat x 0 = .gt := (cmpNat_gt x 0).mpr (by omega)
+      simp [hx, this]
+
+theorem cmpList_nil_left {α : Type} (cmp : α → α → Ordering) (s : List α) :
+    cmpList cmp [] s = if s = [] then .eq else .lt := by
+  cases s <;> simp [cmpList]
+
+theorem cmpList_nil_right {α : Type} (cmp : α → α → Ordering) (r : List α) :
+    cmpList cmp r [] = if r = [] then .eq else .gt := by
+  cases r <;> simp [cmpList]
+
+/-- the implementation's release comparison (strip, then tuple order) is "pad, then compare" -/
+theorem cmp_strip_eq_cmpPad : ∀ (r s : List Nat),
+    cmpList cmpNat (stripTrailingZeros r) (stripTrailingZeros s) = cmpPad r s := by
+  intro r
+  induction r with
+  | nil => intro s; rw [stripTrailingZeros_nil, cmpList_nil_left, cmpPad_nil_left]
+  | cons x xs ih =>
+    intro s
+    cases s with
+    | nil => rw [stripTrailingZeros_nil, cmpList_nil_right, cmpPad_nil_right]
+    | cons y ys =>
+      rw [cmpPad, ← ih ys, stripTrailingZeros_cons, stripTrailingZeros_cons]
+      by_cases h1 : x = 0 ∧ stripTrailingZeros xs = []
+      · rw [if_pos h1, h1.1, h1.2]
+        by_cases h2 : y = 0 ∧ stripTrailingZeros ys = []
+        · rw [if_pos h2, h2.1, h2.2]; rfl
+        · rw [if_neg h2]
+          simp only [cmpList]
+          by_cases hy : y = 0
+          · have : stripTrailingZeros ys ≠ [] := fun h => h2 ⟨hy, h⟩
+            subst hy
+            rw [cmpList_nil_left, if_neg this]; rfl
+          · rw [(cmpNat_lt 0 y).mpr (by omega)]; rfl
+      · rw [if_neg h1]
+        by_cases h2 : y = 0 ∧ stripTrailingZeros ys = []
+        · rw [if_pos h2, h2.1, h2.2]
+          simp only [cmpList]
+          by_cases hx : x = 0
+          · have : stripTrailingZeros xs ≠ [] := fun h => h1 ⟨hx, h⟩
+            subst hx
+            rw [cmpList_nil_right, if_neg this]; rfl
+          · rw [(cmpNat_gt x 0).mpr (by omega)]; rfl
+        · rw [if_neg h2]; rfl
+
+theorem exists_nat_split (P : Nat → Prop) : (∃ i, P i) ↔ P 0 ∨ ∃ i, P (i + 1) := by
+  constructor
+  · rintro ⟨i, hi⟩
+    cases i with
+    | zero => exact Or.inl hi
+    | succ k => exact Or.inr ⟨k, hi⟩
+  · rintro (h | ⟨i, hi⟩)
+    · exact ⟨0, h⟩
+    · exact ⟨i + 1, hi⟩
+
+theorem forall_nat_split (P : Nat → Prop) : (∀ i, P i) ↔ P 0 ∧ ∀ i, P (i + 1) := by
+  constructor
+  · intro h; exact ⟨h 0, fun i => h (i + 1)⟩
+  · rintro ⟨h0, hs⟩ i
+    cases i with
+    | zero => exact h0
+    | succ k => exact hs k
+
+theorem forall_lt_succ_split (P : Nat → Prop) (i : Nat) :
+    (∀ j, j < i + 1 → P j) ↔ P 0 ∧ ∀ j, j < i → P (j + 1) := by
+  constructor
+  · intro h; exact ⟨h 0 (by omega), fun j hj => h (j + 1) (by omega)⟩
+  · rintro ⟨h0, hs⟩ j hj
+    cases j with
+    | zero => exact h0
+    | succ k => exact hs k (by omega)
+
+/-- "first differing component decides", on component functions -/
+theorem lexLt_fun_step (f g : Nat → Nat) :
+    (∃ i, (∀ j, j < i → f j = g j) ∧ f i < g i) ↔
+      f 0 < g 0 ∨ (f 0 = g 0 ∧ ∃ i, (∀ j, j < i → f (j + 1) = g (j + 1)) ∧ f (i + 1) < g (i + 1)) := by
+  rw [exists_nat_split]
+  constructor
+  · rintro (⟨_, h⟩ | ⟨i, hi, hlt⟩)
+    · exact Or.inl h
+    · rw [forall_lt_succ_split] at hi
+      exact Or.inr ⟨hi.1, i, hi.2, hlt⟩
+  · rintro (h | ⟨h0, i, hi, hlt⟩)
+    · exact Or.inl ⟨fun j hj => absurd hj (by omega), h⟩
+    · exact Or.inr ⟨i, (forall_lt_succ_split _ i).mpr ⟨h0, hi⟩, hlt⟩
+
+theorem cmpPad_lt_iff : ∀ (r s : List Nat), cmpPad r s = .lt ↔
+    ∃ i, (∀ j, j < i → r.getD j 0 = s.getD j 0) ∧ r.getD i 0 < s.getD i 0 := by
+  intro r
+  induction r with
+  | nil =>
+    intro s
+    induction s with
+    | nil => simp [cmpPad]
+    | cons y ys ih =>
+      rw [lexLt_fun_step, cmpPad, Ordering.then_eq_lt, cmpNat_lt, cmpNat_eq, ih]
+      simp only [List.getD_nil, List.getD_cons_zero, List.getD_cons_succ]
+  | cons x xs ih =>
+    intro s
+    cases s with
+    | nil =>
+      rw [lexLt_fun_step, cmpPad, Ordering.then_eq_lt, cmpNat_lt, cmpNat_eq, ih]
+      simp only [List.getD_nil, List.getD_cons_zero, List.getD_cons_succ]
+    | cons y ys =>
+      rw [lexLt_fun_step, cmpPad, Ordering.then_eq_lt, cmpNat_lt, cmpNat_eq, ih]
+      simp only [List.getD_cons_zero, List.getD_cons_succ]
+
+theorem cmpPad_eq_iff : ∀ (r s : List Nat), cmpPad r s = .eq ↔ ∀ i, r.getD i 0 = s.getD i 0 := by
+  intro r
+  induction r with
+  | nil =>
+    intro s
+    induction s with
+    | nil => simp [cmpPad]
+    | cons y ys ih =>
+      rw [forall_nat_split, cmpPad, Ordering.then_eq_eq, cmpNat_eq, ih]
+      simp only [List.getD_nil, List.getD_cons_zero, List.getD_cons_succ]
+  | cons x xs ih =>
+    intro s
+    cases s with
+    | nil =>
+      rw [forall_nat_split, cmpPad, Ordering.then_eq_eq, cmpNat_eq, ih]
+      simp only [List.getD_nil, List.getD_cons_zero, List.getD_cons_succ]
+    | cons y ys =>
+      rw [forall_nat_split, cmpPad, Ordering.then_eq_eq, cmpNat_eq, ih]
+      simp only [List.getD_cons_zero, List.getD_cons_succ]
+
+theorem cmp_release_lt_iff (r s : List Nat) :
+    cmpList cmpNat (stripTrailingZeros r) (stripTrailingZeros s) = .lt ↔
+      ∃ i, (∀ j, j < i → r.getD j 0 = s.getD j 0) ∧ r.getD i 0 < s.getD i 0 := by
+  rw [cmp_strip_eq_cmpPad, cmpPad_lt_iff]
+
+theorem cmp_release_eq_iff (r s : List Nat) :
+    cmpList cmpNat (stripTrailingZeros r) (stripTrailingZeros s) = .eq ↔
+      ∀ i, r.getD i 0 = s.getD i 0 := by
+  rw [cmp_strip_eq_cmpPad, cmpPad_eq_iff]
+
+/-! ## Part C: tuple order as "first differing position, or proper prefix" -/
+
+theorem cmpList_lt_iff {α : Type} {cmp : α → α → Ordering} (h : LawfulCmp cmp) :
+    ∀ (a b : List α), cmpList cmp a b = .lt ↔
+      (∃ p x y a' b', a = p ++ x :: a' ∧ b = p ++ y :: b' ∧ cmp x y = .lt) ∨
+      (∃ y t, b = a ++ y :: t) := by
+  intro a
+  induction a with
+  | nil =>
+    intro b
+    cases b with
+    | nil => simp [cmpList]
+    | cons y ys =>
+      simp only [cmpList, true_iff]
+      exact Or.inr ⟨y, ys, rfl⟩
+  | cons x xs ih =>
+    intro b
+    cases b with
+    | nil => 
+      simp only [cmpList, reduceCtorEq, false_iff]
+      rintro (⟨p, x', y', a', b', _, hb, _⟩ | ⟨y, t, hb⟩)
+      · cases p <;> simp at hb
+      · simp at hb
+    | cons y ys =>
+      simp only [cmpList, Ordering.then_eq_lt]
+      constructor
+      · rintro (hlt | ⟨heq, hrest⟩)
+        · exact Or.inl ⟨[], x, y, xs, ys, rfl, rfl, hlt⟩
+        · have hxy := (h.eq_iff x y).mp heq
+          subst hxy
+          rcases (ih ys).mp hrest with ⟨p, x', y', a', b', ha, hb, hlt⟩ | ⟨y', t, hb⟩
+          · exact Or.inl ⟨x :: p, x', y', a', b', by rw [ha]; rfl, by rw [hb]; rfl, hlt⟩
+          · exact Or.inr ⟨y', t, by rw [hb]; rfl⟩
+      · rintro (⟨p, x', y', a', b', ha, hb, hlt⟩ | ⟨y', t, hb⟩)
+        · cases p with
+          | nil =>
+            simp only [List.nil_append, List.cons.injEq] at ha hb
+            rw [ha.1, hb.1]; exact Or.inl hlt
+          | cons z p' =>
+            simp only [List.cons_append, List.cons.injEq] at ha hb
+            rw [ha.1, hb.1]
+            exact Or.inr ⟨h.refl z, (ih ys).mpr (Or.inl ⟨p', x', y', a', b', ha.2, hb.2, hlt⟩)⟩
+        · simp only [List.cons_append, List.cons.injEq] at hb
+          rw [hb.1]
+          exact Or.inr ⟨h.refl x, (ih ys).mpr (Or.inr ⟨y', t, hb.2⟩)⟩
+
+/-! ## Part D: small facts used by the bridge to the specification -/
+
+theorem preKeyOf_some (v : PepVersion) (p : Str × Nat) (h : v.pre = some p) : preKeyOf v = .val p := by
+  unfold preKeyOf; rw [h]
+
+theorem bridge_letters :
+    cmpStr ['a'] ['a'] = .eq ∧ cmpStr ['a'] ['b'] = .lt ∧ cmpStr ['a'] ['r', 'c'] = .lt ∧
+    cmpStr ['b'] ['a'] = .gt ∧ cmpStr ['b'] ['b'] = .eq ∧ cmpStr ['b'] ['r', 'c'] = .lt ∧
+    cmpStr ['r', 'c'] ['a'] = .gt ∧ cmpStr ['r', 'c'] ['b'] = .gt ∧ cmpStr ['r', 'c'] ['r', 'c'] = .eq := by
+  decide
+
+theorem then_assoc4 (a b c d : Ordering) :
+    a.then (b.then (c.then d)) = (a.then (b.then c)).then d := by
+  cases a <;> cases b <;> cases c <;> rfl
+
+/-! ## Part E: the recogniser on canonical text (round trip) and what it can produce -/
+
+/-- the pre-release letter is one of the three normal forms -/
+def WfPre (v : PepVersion) : Prop :=
+  ∀ l n, v.pre = some (l, n) → l = ['a'] ∨ l = ['b'] ∨ l = ['r', 'c']
+
+theorem WfPre_of_wfPep (v : PepVersion) (h : wfPep v = true) : WfPre v := by
+  intro l n hp
+  simp only [wfPep, hp, Bool.and_eq_true, Bool.or_eq_true, beq_iff_eq] at h
+  exact (by simpa [or_assoc] using h.1.2)
+
+/-! ### digit strings followed by a non-digit -/
+
+/-- the text does not start with a digit -/
+def NoDigitHead (s : Str) : Prop := ∀ c t, s = c :: t → isDigit c = false
+
+theorem takeWhile_digits_append (a b : Str) (ha : allDigits a = true) (hb : NoDigitHead b) :
+    (a ++ b).takeWhile isDigit = a ∧ (a ++ b).dropWhile isDigit = b := by
+  induction a with
+  | nil =>
+    cases b with
+    | nil => simp
+    | cons c t => simp [hb c t rfl]
+  | cons x xs ih =>
+    rw [allDigits_cons] at ha
+    have := ih ha.2
+    simp [ha.1, this.1, this.2]
+
+theorem natToStr_cons (n : Nat) : ∃ c t, natToStr n = c :: t ∧ isDigit c = true := by
+  have h := allDigits_natToStr n
+  cases hs : natToStr n with
+  | nil => exact absurd hs (natToStr_ne_nil n)
+  | cons c t =>
+    rw [hs, allDigits_cons] at h
+    exact ⟨c, t, rfl, h.1⟩
+
+theorem noDigitHead_nil : NoDigitHead [] := by intro c t h; cases h
+
+theorem noDigitHead_cons (c : Char) (t : Str) (h : isDigit c = false) : NoDigitHead (c :: t) := by
+  intro c' t' h'
+  cases h'; exact h
+
+/-! ### characters -/
+
+theorem isDigit_toNat (c : Char) (h : isDigit c = true) : 48 ≤ c.toNat ∧ c.toNat ≤ 57 :=
+  (isDigit_iff c).mp h
+
+theorem isLower_iff (c : Char) : isLower c = true ↔ 97 ≤ c.toNat ∧ c.toNat ≤ 122 := by
+  simp only [isLower, Bool.and_eq_true, decide_eq_true_eq, Char.le_def]
+  exact Iff.rfl
+
+theorem isUpper_iff (c : Char) : isUpper c = true ↔ 65 ≤ c.toNat ∧ c.toNat ≤ 90 := by
+  simp only [isUpper, Bool.and_eq_true, decide_eq_true_eq, Char.le_def]
+  exact Iff.rfl
+
+theorem char_ne_of_toNat_ne (c d : Char) (h : c.toNat ≠ d.toNat) : c ≠ d := by
+  intro hcd; subst hcd; exact h rfl
+
+/-- characters of canonical text: digits, lower-case letters, `.`, `!`, `+` -/
+def isCanon (c : Char) : Bool := isDigit c || isLower c || c == '.' || c == '!' || c == '+'
+
+theorem isCanon_toNat (c : Char) (h : isCanon c = true) :
+    (48 ≤ c.toNat ∧ c.toNat ≤ 57) ∨ (97 ≤ c.toNat ∧ c.toNat ≤ 122) ∨ c.toNat = 46 ∨ c.toNat = 33 ∨
+      c.toNat = 43 := by
+  simp only [isCanon, Bool.or_eq_true, beq_iff_eq] at h
+  rcases h with (((h | h) | h) | h) | h
+  · exact Or.inl ((isDigit_iff c).mp h)
+  · exact Or.inr (Or.inl ((isLower_iff c).mp h))
+  · subst h; decide
+  · subst h; decide
+  · subst h; decide
+
+theorem toLower_of_canon (c : Char) (h : isCanon c = true) : toLowerAscii c = c := by
+  have h' := isCanon_toNat c h
+  have : isUpper c = false := by
+    cases hu : isUpper c with
+    | false => rfl
+    | true => have := (isUpper_iff c).mp hu; omega
+  simp [toLowerAscii, this]
+
+theorem notSpace_of_canon (c : Char) (h : isCanon c = true) : isReSpace c = false := by
+  have h' := isCanon_toNat c h
+  simp only [isReSpace, Bool.or_eq_false_iff, Bool.and_eq_false_iff, decide_eq_false_iff_not]
+  omega
+
+theorem lowerStr_of_canon (s : Str) (h : s.all isCanon = true) : lowerStr s = s := by
+  induction s with
+  | nil => rfl
+  | cons c cs ih =>
+    simp only [List.all_cons, Bool.and_eq_true] at h
+    simp only [lowerStr, List.map_cons, List.cons.injEq] at ih ⊢
+    exact ⟨toLower_of_canon c h.1, ih h.2⟩
+
+theorem dropWhile_of_all_false {α : Type} (p : α → Bool) (s : List α) (h : ∀ c ∈ s, p c = false) :
+    s.dropWhile p = s := by
+  cases s with
+  | nil => rfl
+  | cons c cs => simp [h c (by simp)]
+
+theorem reStrip_of_canon (s : Str) (h : s.all isCanon = true) : reStrip s = s := by
+  have h1 : ∀ c ∈ s, isReSpace c = false := by
+    intro c hc
+    exact notSpace_of_canon c (List.all_eq_true.mp h c hc)
+  unfold reStrip
+  rw [dropWhile_of_all_false _ s h1, dropWhile_of_all_false _ s.reverse (by simpa using h1)]
+  simp
+
+theorem dropV_of_digit (c : Char) (t : Str) (h : isDigit c = true) : dropV (c :: t) = c :: t := by
+  unfold dropV
+  split
+  · next r heq =>
+    cases heq
+    exact absurd h (by decide)
+  · rfl
+
+/-! ### epoch and first release component -/
+
+theorem headSeg_noEpoch (ds X : Str) (hne : ds ≠ []) (hd : allDigits ds = true) (hX : NoDigitHead X)
+    (hb : ∀ t, X ≠ '!' :: t) : headSeg (ds ++ X) = some (0, ds, X) := by
+  have h := takeWhile_digits_append ds X hd hX
+  have hemp : ds.isEmpty = false := by cases ds <;> simp_all
+  simp only [headSeg, h.1, h.2, hemp, Bool.false_eq_true, ↓reduceIte]
+
+theorem headSeg_epoch (es ds X : Str) (hes : es ≠ []) (hed : allDigits es = true) (hne : ds ≠ [])
+    (hd : allDigits ds = true) (hX : NoDigitHead X) :
+    headSeg (es ++ '!' :: (ds ++ X)) = some (strToNat es, ds, X) := by
+  have h := takeWhile_digits_append es ('!' :: (ds ++ X)) hed (noDigitHead_cons _ _ (by decide))
+  have h2 := takeWhile_digits_append ds X hd hX
+  have hemp : es.isEmpty = false := by cases es <;> simp_all
+  have hemp2 : ds.isEmpty = false := by cases ds <;> simp_all
+  simp only [headSeg, h.1, h.2, hemp, h2.1, h2.2, hemp2]
+  rfl
+
+/-! ### further release components -/
+
+/-- the text does not continue the release: no `.digit` -/
+def StopsRel (s : Str) : Prop := ∀ c t, s = '.' :: c :: t → isDigit c = false
+
+theorem relTailF_stop (f : Nat) (T : Str) (h : StopsRel T) : relTailF f T = ([], T) := by
+  unfold relTailF
+  split
+  · rfl
+  · next c cs => simp [h c cs rfl]
+  · rfl
+
+/-- `.N.M…` -/
+def relTailStr : List Nat → Str
+  | [] => []
+  | n :: rs => '.' :: (natToStr n ++ relTailStr rs)
+
+theorem join_release (r0 : Nat) (rs : List Nat) :
+    join ['.'] ((r0 :: rs).map natToStr) = natToStr r0 ++ relTailStr rs := by
+  induction rs generalizing r0 with
+  | nil => simp [join, relTailStr]
+  | cons n rs ih =>
+    have := ih n
+    simp only [List.map_cons] at this ⊢
+    simp only [join, this, relTailStr, List.append_assoc, List.cons_append, List.nil_append]
+
+theorem noDigitHead_relTail (rs : List Nat) (T : Str) (hT : NoDigitHead T) :
+    NoDigitHead (relTailStr rs ++ T) := by
+  cases rs with
+  | nil => exact hT
+  | cons n rs => exact noDigitHead_cons _ _ (by decide)
+
+theorem relTailF_canon (rs : List Nat) (T : Str) (hT : StopsRel T) (hT2 : NoDigitHead T) :
+    ∀ f, rs.length ≤ f → relTailF f (relTailStr rs ++ T) = (rs.map natToStr, T) := by
+  induction rs with
+  | nil => intro f _; exact relTailF_stop f T hT
+  | cons n rs ih =>
+    intro f hf
+    cases f with
+    | zero => simp at hf
+    | succ f =>
+      obtain ⟨c, t, hn, hc⟩ := natToStr_cons n
+      have h := takeWhile_digits_append (natToStr n) (relTailStr rs ++ T) (allDigits_natToStr n)
+        (noDigitHead_relTail rs T hT2)
+      rw [hn] at h
+      simp only [List.cons_append] at h
+      simp only [relTailStr, hn, List.cons_append, List.append_assoc, relTailF, hc, if_true, h.1, h.2,
+        ih f (by simpa using hf), List.map_cons]
+
+/-! ### letter segments -/
+
+theorem isSep_digit (c : Char) (h : isDigit c = true) : isSep c = false := by
+  have := (isDigit_iff c).mp h
+  simp only [isSep, Bool.or_eq_false_iff, beq_eq_false_iff_ne, ne_eq]
+  refine ⟨⟨?_, ?_⟩, ?_⟩ <;> (apply char_ne_of_toNat_ne; simp; omega)
+
+theorem dropOptSep_digits (ds T : Str) (hd : allDigits ds = true) (hne : ds ≠ []) :
+    dropOptSep (ds ++ T) = ds ++ T := by
+  cases ds with
+  | nil => exact absurd rfl hne
+  | cons c t =>
+    rw [allDigits_cons] at hd
+    simp [dropOptSep, isSep_digit c hd.1]
+
+theorem digit_ne_letter (c x : Char) (h : isDigit c = true) (hx : 58 ≤ x.toNat) : ¬ x = c := by
+  have := (isDigit_iff c).mp h
+  intro hxc; subst hxc; omega
+
+/-- after the letter: optional separator (none), digits, rest -/
+theorem letterSeg_tail (ds T : Str) (hd : allDigits ds = true) (hne : ds ≠ []) (hT : NoDigitHead T) :
+    (dropOptSep (ds ++ T)).takeWhile isDigit = ds ∧ (dropOptSep (ds ++ T)).dropWhile isDigit = T := by
+  rw [dropOptSep_digits ds T hd hne]
+  exact takeWhile_digits_append ds T hd hT
+
+theorem letterSeg_of_firstPrefix (ws : List (Str × Str)) (s l ds T : Str)
+    (h : firstPrefix ws (dropOptSep s) = some (l, ds ++ T))
+    (hd : allDigits ds = true) (hne : ds ≠ []) (hT : NoDigitHead T) :
+    letterSeg ws s = some ((l, strToNat ds), T) := by
+  have ht := letterSeg_tail ds T hd hne hT
+  simp only [letterSeg, h, ht.1, ht.2]
+
+theorem letterSeg_pre_a (ds T : Str) (hd : allDigits ds = true) (hne : ds ≠ []) (hT : NoDigitHead T) :
+    letterSeg preWords ('a' :: (ds ++ T)) = some ((['a'], strToNat ds), T) := by
+  apply letterSeg_of_firstPrefix _ _ _ _ _ _ hd hne hT
+  cases ds with
+  | nil => exact absurd rfl hne
+  | cons c t =>
+    have hc := ((allDigits_cons c t).mp hd).1
+    have h1 := digit_ne_letter c 'l' hc (by decide)
+    simp [dropOptSep, isSep, preWords, firstPrefix, dropPrefix?, h1]
+
+theorem letterSeg_pre_b (ds T : Str) (hd : allDigits ds = true) (hne : ds ≠ []) (hT : NoDigitHead T) :
+    letterSeg preWords ('b' :: (ds ++ T)) = some ((['b'], strToNat ds), T) := by
+  apply letterSeg_of_firstPrefix _ _ _ _ _ _ hd hne hT
+  cases ds with
+  | nil => exact absurd rfl hne
+  | cons c t =>
+    have hc := ((allDigits_cons c t).mp hd).1
+    have h1 := digit_ne_letter c 'e' hc (by decide)
+    simp [dropOptSep, isSep, preWords, firstPrefix, dropPrefix?, h1]
+
+theorem letterSeg_pre_rc (ds T : Str) (hd : allDigits ds = true) (hne : ds ≠ []) (hT : NoDigitHead T) :
+    letterSeg preWords ('r' :: 'c' :: (ds ++ T)) = some ((['r', 'c'], strToNat ds), T) := by
+  apply letterSeg_of_firstPrefix _ _ _ _ _ _ hd hne hT
+  simp [dropOptSep, isSep, preWords, firstPrefix, dropPrefix?]
+
+theorem letterSeg_post (ds T : Str) (hd : allDigits ds = true) (hne : ds ≠ []) (hT : NoDigitHead T) :
+    letterSeg postWords (".post".toList ++ (ds ++ T)) = some ((['p', 'o', 's', 't'], strToNat ds), T) := by
+  apply letterSeg_of_firstPrefix _ _ _ _ _ _ hd hne hT
+  simp [dropOptSep, isSep, postWords, firstPrefix, dropPrefix?]
+
+theorem letterSeg_dev (ds T : Str) (hd : allDigits ds = true) (hne : ds ≠ []) (hT : NoDigitHead T) :
+    letterSeg devWords (".dev".toList ++ (ds ++ T)) = some ((['d', 'e', 'v'], strToNat ds), T) := by
+  apply letterSeg_of_firstPrefix _ _ _ _ _ _ hd hne hT
+  simp [dropOptSep, isSep, devWords, firstPrefix, dropPrefix?]
+
+/-! ### the text after the release: shapes of its beginning -/
+
+theorem stopsRel_nil : StopsRel [] := by intro c t h; cases h
+
+theorem stopsRel_cons_ne (c : Char) (t : Str) (h : c ≠ '.') : StopsRel (c :: t) := by
+  intro c' t' h'
+  injection h' with h1 _
+  exact absurd h1 h
+
+theorem stopsRel_dot (c : Char) (t : Str) (h : isDigit c = false) : StopsRel ('.' :: c :: t) := by
+  intro c' t' h'
+  injection h' with _ h2
+  injection h2 with h3 _
+  rw [← h3]; exact h
+
+/-- a beginning that cannot continue a number, a release, or be taken for `!` -/
+def TailOK (s : Str) : Prop := NoDigitHead s ∧ StopsRel s ∧ ∀ t, s ≠ '!' :: t
+
+theorem tailOK_nil : TailOK [] := ⟨noDigitHead_nil, stopsRel_nil, fun _ h => by cases h⟩
+
+theorem tailOK_cons (c : Char) (t : Str) (h1 : isDigit c = false) (h2 : c ≠ '.') (h3 : c ≠ '!') :
+    TailOK (c :: t) :=
+  ⟨noDigitHead_cons c t h1, stopsRel_cons_ne c t h2, fun _ h => by injection h with h _; exact h3 h⟩
+
+theorem tailOK_dot (c : Char) (t : Str) (h : isDigit c = false) : TailOK ('.' :: c :: t) :=
+  ⟨noDigitHead_cons _ _ (by decide), stopsRel_dot c t h, fun _ h => by injection h with h _; cases h⟩
+
+theorem tailOK_loc (loc : Option (List LocalSeg)) : TailOK (locStr loc) := by
+  cases loc with
+  | none => exact tailOK_nil
+  | some l => exact tailOK_cons _ _ (by decide) (by decide) (by decide)
+
+theorem tailOK_dev (dev : Option Nat) (loc : Option (List LocalSeg)) :
+    TailOK (devStr dev ++ locStr loc) := by
+  cases dev with
+  | none => exact tailOK_loc loc
+  | some n => exact tailOK_dot _ _ (by decide)
+
+theorem tailOK_post (post dev : Option Nat) (loc : Option (List LocalSeg)) :
+    TailOK (postStr post ++ (devStr dev ++ locStr loc)) := by
+  cases post with
+  | none => exact tailOK_dev dev loc
+  | some n => exact tailOK_dot _ _ (by decide)
+
+theorem tailOK_pre (pre : Option (Str × Nat)) (post dev : Option Nat) (loc : Option (List LocalSeg))
+    (hpre : ∀ l n, pre = some (l, n) → l = ['a'] ∨ l = ['b'] ∨ l = ['r', 'c']) :
+    TailOK (preStr pre ++ (postStr post ++ (devStr dev ++ locStr loc))) := by
+  cases pre with
+  | none => exact tailOK_post post dev loc
+  | some p =>
+    obtain ⟨l, n⟩ := p
+    rcases hpre l n rfl with rfl | rfl | rfl <;>
+      exact tailOK_cons _ _ (by decide) (by decide) (by decide)
+
+/-! ### the optional groups on canonical text -/
+
+theorem preSeg_some (l : Str) (n : Nat) (T : Str) (hl : l = ['a'] ∨ l = ['b'] ∨ l = ['r', 'c'])
+    (hT : NoDigitHead T) : preSeg (preStr (some (l, n)) ++ T) = (some (l, n), T) := by
+  have hd := allDigits_natToStr n
+  have hne := natToStr_ne_nil n
+  rcases hl with rfl | rfl | rfl
+  · simp only [preSeg, preStr, List.cons_append, List.nil_append,
+      letterSeg_pre_a _ T hd hne hT, strToNat_natToStr]
+  · simp only [preSeg, preStr, List.cons_append, List.nil_append,
+      letterSeg_pre_b _ T hd hne hT, strToNat_natToStr]
+  · simp only [preSeg, preStr, List.cons_append, List.nil_append,
+      letterSeg_pre_rc _ T hd hne hT, strToNat_natToStr]
+
+theorem preSeg_none (post dev : Option Nat) (loc : Option (List LocalSeg)) :
+    preSeg (postStr post ++ (devStr dev ++ locStr loc)) = (none, postStr post ++ (devStr dev ++ locStr loc)) := by
+  cases post <;> cases dev <;> cases loc <;>
+    simp [preSeg, letterSeg, postStr, devStr, locStr, dropOptSep, isSep, preWords, firstPrefix, dropPrefix?]
+
+theorem postSeg_some (n : Nat) (T : Str) (hT : NoDigitHead T) :
+    postSeg (postStr (some n) ++ T) = (some n, T) := by
+  have h : letterSeg postWords ('.' :: 'p' :: 'o' :: 's' :: 't' :: (natToStr n ++ T))
+      = some ((['p', 'o', 's', 't'], strToNat (natToStr n)), T) :=
+    letterSeg_post (natToStr n) T (allDigits_natToStr n) (natToStr_ne_nil n) hT
+  simp [postSeg, postStr, h, strToNat_natToStr]
+
+theorem postSeg_none (dev : Option Nat) (loc : Option (List LocalSeg)) :
+    postSeg (devStr dev ++ locStr loc) = (none, devStr dev ++ locStr loc) := by
+  cases dev <;> cases loc <;>
+    simp [postSeg, letterSeg, devStr, locStr, dropOptSep, isSep, postWords, firstPrefix, dropPrefix?]
+
+theorem devSeg_some (n : Nat) (T : Str) (hT : NoDigitHead T) :
+    devSeg (devStr (some n) ++ T) = (some n, T) := by
+  have h : letterSeg devWords ('.' :: 'd' :: 'e' :: 'v' :: (natToStr n ++ T))
+      = some ((['d', 'e', 'v'], strToNat (natToStr n)), T) :=
+    letterSeg_dev (natToStr n) T (allDigits_natToStr n) (natToStr_ne_nil n) hT
+  simp [devSeg, devStr, h, strToNat_natToStr]
+
+theorem devSeg_none (loc : Option (List LocalSeg)) : devSeg (locStr loc) = (none, locStr loc) := by
+  cases loc <;>
+    simp [devSeg, letterSeg, locStr, dropOptSep, isSep, devWords, firstPrefix, dropPrefix?]
+
+/-! ### the local segment -/
+
+theorem isLocalChar_toNat (c : Char) (h : isLocalChar c = true) :
+    (48 ≤ c.toNat ∧ c.toNat ≤ 57) ∨ (97 ≤ c.toNat ∧ c.toNat ≤ 122) := by
+  simp only [isLocalChar, Bool.or_eq_true] at h
+  rcases h with h | h
+  · exact Or.inr ((isLower_iff c).mp h)
+  · exact Or.inl ((isDigit_iff c).mp h)
+
+theorem isSep_of_localChar (c : Char) (h : isLocalChar c = true) : isSep c = false := by
+  have := isLocalChar_toNat c h
+  simp only [isSep, Bool.or_eq_false_iff, beq_eq_false_iff_ne, ne_eq]
+  refine ⟨⟨?_, ?_⟩, ?_⟩ <;> (apply char_ne_of_toNat_ne; simp; omega)
+
+theorem isCanon_of_localChar (c : Char) (h : isLocalChar c = true) : isCanon c = true := by
+  simp only [isLocalChar, Bool.or_eq_true] at h
+  simp only [isCanon, Bool.or_eq_true]
+  rcases h with h | h
+  · exact Or.inl (Or.inl (Or.inl (Or.inr h)))
+  · exact Or.inl (Or.inl (Or.inl (Or.inl h)))
+
+theorem isLocalChar_of_digit (c : Char) (h : isDigit c = true) : isLocalChar c = true := by
+  simp [isLocalChar, h]
+
+theorem splitSeps_append (p : Str) (hp : ∀ c ∈ p, isSep c = false) :
+    ∀ (cur rest : Str), splitSeps cur (p ++ rest) = splitSeps (p.reverse ++ cur) rest := by
+  induction p with
+  | nil => intro cur rest; rfl
+  | cons c cs ih =>
+    intro cur rest
+    have hc := hp c (by simp)
+    simp only [List.cons_append, splitSeps, hc, Bool.false_eq_true, if_false]
+    rw [ih (fun d hd => hp d (by simp [hd]))]
+    simp
+
+theorem splitSeps_join (l : List Str) (hne : l ≠ []) (hl : ∀ p ∈ l, ∀ c ∈ p, isSep c = false) :
+    splitSeps [] (join ['.'] l) = l := by
+  induction l with
+  | nil => exact absurd rfl hne
+  | cons p ps ih =>
+    cases ps with
+    | nil =>
+      have := splitSeps_append p (hl p (by simp)) [] []
+      simp only [List.append_nil] at this
+      simp [join, this, splitSeps]
+    | cons q qs =>
+      have h1 := splitSeps_append p (hl p (by simp)) [] ('.' :: join ['.'] (q :: qs))
+      have h2 := ih (by simp) (fun p' hp' => hl p' (by simp [hp']))
+      simp only [join, List.append_assoc, List.cons_append, List.nil_append, h1]
+      simp [splitSeps, isSep, h2]
+
+/-- the text of a well-formed local part reads back as that part -/
+theorem localSegStr_props (seg : LocalSeg) (h : wfLocalSeg seg = true) :
+    (localSegStr seg).isEmpty = false ∧ (localSegStr seg).all isLocalChar = true ∧
+      parseLocalPart (localSegStr seg) = seg := by
+  cases seg with
+  | num n =>
+    have hd := allDigits_natToStr n
+    have hne := natToStr_ne_nil n
+    refine ⟨by cases h' : natToStr n <;> simp_all [localSegStr], ?_, ?_⟩
+    · simp only [localSegStr, List.all_eq_true]
+      intro c hc
+      exact isLocalChar_of_digit c (List.all_eq_true.mp hd c hc)
+    · simp [parseLocalPart, localSegStr, isDigitStr_natToStr, strToNat_natToStr]
+  | str s =>
+    simp only [wfLocalSeg, Bool.and_eq_true, Bool.not_eq_true'] at h
+    refine ⟨h.1.1, h.1.2, ?_⟩
+    simp [parseLocalPart, localSegStr, isDigitStr, h.2]
+
+theorem localSeg_canon (loc : Option (List LocalSeg))
+    (h : ∀ l, loc = some l → l ≠ [] ∧ l.all wfLocalSeg = true) : localSeg (locStr loc) = some loc := by
+  cases loc with
+  | none => rfl
+  | some l =>
+    obtain ⟨hne, hall⟩ := h l rfl
+    have hprops : ∀ seg ∈ l, _ := fun seg hs => localSegStr_props seg (List.all_eq_true.mp hall seg hs)
+    have hsplit : splitSeps [] (join ['.'] (l.map localSegStr)) = l.map localSegStr := by
+      apply splitSeps_join
+      · simpa using hne
+      · intro p hp c hc
+        obtain ⟨seg, hs, rfl⟩ := List.mem_map.mp hp
+        exact isSep_of_localChar c (List.all_eq_true.mp (hprops seg hs).2.1 c hc)
+    have hok : (l.map localSegStr).all (fun p => !p.isEmpty && p.all isLocalChar) = true := by
+      simp only [List.all_map, List.all_eq_true, Function.comp]
+      intro seg hs
+      simp [(hprops seg hs).1, (hprops seg hs).2.1]
+    have hmap : (l.map localSegStr).map parseLocalPart = l := by
+      rw [List.map_map]
+      conv => rhs; rw [← List.map_id l]
+      apply List.map_congr_left
+      intro seg hs
+      exact (hprops seg hs).2.2
+    simp only [locStr, localSeg, hsplit, hok, if_true, hmap]
+
+/-! ### canonical text has canonical characters -/
+
+theorem all_join (P : Char → Bool) (sep : Char) (hsep : P sep = true) (l : List Str)
+    (hl : ∀ p ∈ l, p.all P = true) : (join [sep] l).all P = true := by
+  induction l with
+  | nil => rfl
+  | cons p ps ih =>
+    cases ps with
+    | nil => simpa [join] using hl p (by simp)
+    | cons q qs =>
+      have := ih (fun p' hp' => hl p' (by simp [hp']))
+      simp only [join, List.all_append, List.all_cons, List.all_nil, Bool.and_true, Bool.and_eq_true]
+      exact ⟨⟨hl p (by simp), hsep⟩, this⟩
+
+theorem all_canon_natToStr (n : Nat) : (natToStr n).all isCanon = true := by
+  simp only [List.all_eq_true]
+  intro c hc
+  have := List.all_eq_true.mp (allDigits_natToStr n) c hc
+  simp [isCanon, this]
+
+theorem all_canon_pepStr (v : PepVersion) (h : wfPep v = true) : (pepStr v).all isCanon = true := by
+  have hpre := WfPre_of_wfPep v h
+  obtain ⟨e, r, pre, post, dev, loc⟩ := v
+  simp only [pepStr, List.all_append, Bool.and_eq_true]
+  refine ⟨?_, ?_, ?_, ?_, ?_, ?_⟩
+  · unfold epochStr; split
+    · simp [all_canon_natToStr, isCanon]
+    · rfl
+  · apply all_join isCanon '.' (by decide)
+    intro p hp
+    obtain ⟨n, _, rfl⟩ := List.mem_map.mp hp
+    exact all_canon_natToStr n
+  · cases pre with
+    | none => rfl
+    | some p =>
+      obtain ⟨l, n⟩ := p
+      rcases hpre l n rfl with rfl | rfl | rfl <;> simp [preStr, all_canon_natToStr, isCanon, isLower]
+  · cases post with
+    | none => rfl
+    | some n => simp [postStr, all_canon_natToStr, isCanon, isLower]
+  · cases dev with
+    | none => rfl
+    | some n => simp [devStr, all_canon_natToStr, isCanon, isLower]
+  · cases loc with
+    | none => rfl
+    | some l =>
+      simp only [wfPep, Bool.and_eq_true] at h
+      have hall := h.2.2
+      simp only [locStr, List.all_cons, Bool.and_eq_true]
+      refine ⟨by decide, ?_⟩
+      apply all_join isCanon '.' (by decide)
+      intro p hp
+      obtain ⟨seg, hs, rfl⟩ := List.mem_map.mp hp
+      have := (localSegStr_props seg (List.all_eq_true.mp hall seg hs)).2.1
+      simp only [List.all_eq_true] at this ⊢
+      intro c hc
+      exact isCanon_of_localChar c (this c hc)
+
+/-! ### assembling the round trip -/
+
+theorem parseCore_eq (s : Str) (e : Nat) (first r2 : Str) (rels : List Str) (T3 : Str)
+    (pre : Option (Str × Nat)) (T4 : Str) (post : Option Nat) (T5 : Str) (dev : Option Nat) (T6 : Str)
+    (loc : Option (List LocalSeg))
+    (h1 : headSeg s = some (e, first, r2)) (h2 : relTailF r2.length r2 = (rels, T3))
+    (h3 : preSeg T3 = (pre, T4)) (h4 : postSeg T4 = (post, T5)) (h5 : devSeg T5 = (dev, T6))
+    (h6 : localSeg T6 = some loc) :
+    parseCore s = some ⟨e, (first :: rels).map strToNat, pre, post, dev, loc⟩ := by
+  simp only [parseCore, h1, h2, h3, h4, h5, h6]
+
+theorem relTailStr_length (rs : List Nat) : rs.length ≤ (relTailStr rs).length := by
+  induction rs with
+  | nil => simp [relTailStr]
+  | cons n rs ih => simp only [relTailStr, List.length_cons, List.length_append]; omega
+
+theorem map_strToNat_natToStr (rs : List Nat) : (rs.map natToStr).map strToNat = rs := by
+  induction rs with
+  | nil => rfl
+  | cons n rs ih => simp [strToNat_natToStr, ih]
+
+theorem tailOK_relTail (rs : List Nat) (T : Str) (hT : TailOK T) :
+    NoDigitHead (relTailStr rs ++ T) ∧ ∀ t, relTailStr rs ++ T ≠ '!' :: t := by
+  cases rs with
+  | nil => exact ⟨hT.1, hT.2.2⟩
+  | cons n rs =>
+    refine ⟨noDigitHead_cons _ _ (by decide), ?_⟩
+    intro t h
+    simp only [relTailStr, List.cons_append] at h
+    injection h with h _
+    cases h
+
+/-- the optional groups read back -/
+theorem groups_canon (pre : Option (Str × Nat)) (post dev : Option Nat) (loc : Option (List LocalSeg))
+    (hpre : ∀ l n, pre = some (l, n) → l = ['a'] ∨ l = ['b'] ∨ l = ['r', 'c']) :
+    preSeg (preStr pre ++ (postStr post ++ (devStr dev ++ locStr loc)))
+      = (pre, postStr post ++ (devStr dev ++ locStr loc)) ∧
+    postSeg (postStr post ++ (devStr dev ++ locStr loc)) = (post, devStr dev ++ locStr loc) ∧
+    devSeg (devStr dev ++ locStr loc) = (dev, locStr loc) := by
+  refine ⟨?_, ?_, ?_⟩
+  · cases pre with
+    | none => exact preSeg_none post dev loc
+    | some p =>
+      obtain ⟨l, n⟩ := p
+      exact preSeg_some l n _ (hpre l n rfl) (tailOK_post post dev loc).1
+  · cases post with
+    | none => exact postSeg_none dev loc
+    | some n => exact postSeg_some n _ (tailOK_dev dev loc).1
+  · cases dev with
+    | none => exact devSeg_none loc
+    | some n => exact devSeg_some n _ (tailOK_loc loc).1
+
+theorem parseCore_pepStr (v : PepVersion) (h : wfPep v = true) : parseCore (pepStr v) = some v := by
+  have hpre := WfPre_of_wfPep v h
+  obtain ⟨e, r, pre, post, dev, loc⟩ := v
+  have hloc : ∀ l, loc = some l → l ≠ [] ∧ l.all wfLocalSeg = true := by
+    intro l hl
+    subst hl
+    simp only [wfPep, Bool.and_eq_true, Bool.not_eq_true'] at h
+    exact ⟨by intro hn; subst hn; simp at h, h.2.2⟩
+  cases r with
+  | nil => simp [wfPep] at h
+  | cons r0 rs =>
+    have hT3 := tailOK_pre pre post dev loc hpre
+    obtain ⟨g1, g2, g3⟩ := groups_canon pre post dev loc hpre
+    have hX := tailOK_relTail rs _ hT3
+    have hrel := relTailF_canon rs _ hT3.2.1 hT3.1 (relTailStr rs ++ (preStr pre ++ (postStr post ++
+      (devStr dev ++ locStr loc)))).length
+      (by rw [List.length_append]; have := relTailStr_length rs; omega)
+    have hhead : headSeg (pepStr ⟨e, r0 :: rs, pre, post, dev, loc⟩)
+        = some (e, natToStr r0, relTailStr rs ++ (preStr pre ++ (postStr post ++ (devStr dev ++ locStr loc)))) := by
+      simp only [pepStr, join_release, List.append_assoc]
+      by_cases he : e = 0
+      · subst he
+        simp only [epochStr, bne_self_eq_false, Bool.false_eq_true, if_false, List.nil_append]
+        exact headSeg_noEpoch _ _ (natToStr_ne_nil r0) (allDigits_natToStr r0) hX.1 hX.2
+      · have : (e != 0) = true := by simpa using he
+        simp only [epochStr, this, if_true, List.append_assoc, List.cons_append, List.nil_append]
+        have := headSeg_epoch (natToStr e) (natToStr r0) _ (natToStr_ne_nil e) (allDigits_natToStr e)
+          (natToStr_ne_nil r0) (allDigits_natToStr r0) hX.1
+        rw [strToNat_natToStr] at this
+        exact this
+    have := parseCore_eq _ _ _ _ _ _ _ _ _ _ _ _ _ hhead hrel g1 g2 g3 (localSeg_canon loc hloc)
+    rw [this]
+    simp only [List.map_cons, strToNat_natToStr, map_strToNat_natToStr]
+
+theorem head_digit_append (a b : Str) (h : ∃ c t, a = c :: t ∧ isDigit c = true) :
+    ∃ c t, a ++ b = c :: t ∧ isDigit c = true := by
+  obtain ⟨c, t, rfl, hc⟩ := h
+  exact ⟨c, t ++ b, rfl, hc⟩
+
+theorem pepStr_head_digit (v : PepVersion) (h : wfPep v = true) :
+    ∃ c t, pepStr v = c :: t ∧ isDigit c = true := by
+  obtain ⟨e, r, pre, post, dev, loc⟩ := v
+  cases r with
+  | nil => simp [wfPep] at h
+  | cons r0 rs =>
+    simp only [pepStr, join_release]
+    by_cases he : e = 0
+    · subst he
+      simp only [epochStr, bne_self_eq_false, Bool.false_eq_true, if_false, List.nil_append,
+        List.append_assoc]
+      exact head_digit_append _ _ (natToStr_cons r0)
+    · have : (e != 0) = true := by simpa using he
+      simp only [epochStr, this, if_true, List.append_assoc]
+      exact head_digit_append _ _ (natToStr_cons e)
+
+/-- round trip: canonical text parses back to the version it was printed from -/
+theorem parsePep_pepStr (v : PepVersion) (h : wfPep v = true) : parsePep (pepStr v) = some v := by
+  have hc := all_canon_pepStr v h
+  obtain ⟨c, t, hs, hd⟩ := pepStr_head_digit v h
+  unfold parsePep
+  rw [lowerStr_of_canon _ hc, reStrip_of_canon _ hc, hs, dropV_of_digit c t hd, ← hs]
+  exact parseCore_pepStr v h
+
+/-! ### what the recogniser can produce -/
+
+theorem firstPrefix_mem (ws : List (Str × Str)) (s l r : Str) (h : firstPrefix ws s = some (l, r)) :
+    ∃ w, (w, l) ∈ ws := by
+  induction ws with
+  | nil => simp [firstPrefix] at h
+  | cons x xs ih =>
+    obtain ⟨w, nm⟩ := x
+    simp only [firstPrefix] at h
+    split at h
+    · injection h with h
+      injection h with h1 _
+      exact ⟨w, by simp [h1]⟩
+    · obtain ⟨w', hw'⟩ := ih h
+      exact ⟨w', by simp [hw']⟩
+
+theorem preSeg_wf (s : Str) (l : Str) (n : Nat) (h : (preSeg s).1 = some (l, n)) :
+    l = ['a'] ∨ l = ['b'] ∨ l = ['r', 'c'] := by
+  unfold preSeg at h
+  split at h
+  · next p r heq =>
+    simp only [Option.some.injEq] at h
+    subst h
+    unfold letterSeg at heq
+    split at heq
+    · cases heq
+    · next l' r' hfp =>
+      simp only [Option.some.injEq, Prod.mk.injEq] at heq
+      obtain ⟨w, hw⟩ := firstPrefix_mem _ _ _ _ hfp
+      have hl : l' = l := heq.1.1
+      subst hl
+      simp [preWords] at hw
+      rcases hw with h | h | h | h | h | h | h | h <;> simp [h.2]
+  · cases h
+
+theorem splitSeps_ne_nil : ∀ (s cur : Str), splitSeps cur s ≠ [] := by
+  intro s
+  induction s with
+  | nil => intro cur; simp [splitSeps]
+  | cons c cs ih =>
+    intro cur
+    simp only [splitSeps]
+    split
+    · simp
+    · exact ih _
+
+theorem wfLocalSeg_parseLocalPart (p : Str) (h1 : p.isEmpty = false) (h2 : p.all isLocalChar = true) :
+    wfLocalSeg (parseLocalPart p) = true := by
+  unfold parseLocalPart
+  split
+  · rfl
+  · next hd =>
+    simp only [isDigitStr, h1, Bool.not_false, Bool.true_and, Bool.not_eq_true] at hd
+    simp [wfLocalSeg, h1, h2, hd]
+
+theorem localSeg_wf (s : Str) (l : List LocalSeg) (h : localSeg s = some (some l)) :
+    l.isEmpty = false ∧ l.all wfLocalSeg = true := by
+  unfold localSeg at h
+  split at h
+  · cases h
+  · next rest =>
+    simp only at h
+    split at h
+    · next hall =>
+      simp only [Option.some.injEq] at h
+      subst h
+      refine ⟨?_, ?_⟩
+      · have := splitSeps_ne_nil rest []
+        cases hs : splitSeps [] rest with
+        | nil => exact absurd hs this
+        | cons _ _ => rfl
+      · simp only [List.all_map, List.all_eq_true, Function.comp] at hall ⊢
+        intro p hp
+        have := hall p hp
+        simp only [Bool.and_eq_true, Bool.not_eq_true'] at this
+        exact wfLocalSeg_parseLocalPart p this.1 this.2
+    · cases h
+  · cases h
+
+theorem parseCore_wf (s : Str) (v : PepVersion) (h : parseCore s = some v) : wfPep v = true := by
+  unfold parseCore at h
+  split at h
+  · cases h
+  · next e first r2 hh =>
+    simp only at h
+    split at h
+    · cases h
+    · next loc hl =>
+      simp only [Option.some.injEq] at h
+      subst h
+      simp only [wfPep, List.map_cons, List.isEmpty_cons, Bool.not_false, Bool.true_and, Bool.and_eq_true]
+      refine ⟨?_, ?_⟩
+      · split
+        · rfl
+        · next l n hp =>
+          rcases preSeg_wf _ l n hp with rfl | rfl | rfl <;> decide
+      · cases loc with
+        | none => rfl
+        | some l =>
+          have := localSeg_wf _ l hl
+          simp [this.1, this.2]
+
+theorem parsePep_wf (s : Str) (v : PepVersion) (h : parsePep s = some v) : wfPep v = true :=
+  parseCore_wf _ v h
+
 end BV
